@@ -20,11 +20,24 @@ pub struct GenCfg {
     /// widen the filter operator menu (C04 uses all hint-relevant operators)
     pub wide_filters: bool,
     pub naming_devs: bool,
+    /// restrict the deviation kinds (labels: E C Po Poi Pf Px Pt Ae Fco Fcf Fct); None = all
+    pub allow: Option<Vec<&'static str>>,
+    /// restrict edge names / contents used by E (None = all)
+    pub e_names: Option<Vec<&'static str>>,
+    pub e_contents: Vec<u8>,
+    /// restrict the tag menu to its first n entries (0 = all)
+    pub tag_menu_cap: usize,
+}
+
+impl GenCfg {
+    pub fn allows(&self, kind: &str) -> bool {
+        self.allow.as_ref().map(|a| a.iter().any(|k| *k == kind)).unwrap_or(true)
+    }
 }
 
 impl Default for GenCfg {
     fn default() -> Self {
-        GenCfg { max_vertices: 4, max_depth: 3, recurse_depths: vec![1, 2, 3], wide_filters: false, naming_devs: true }
+        GenCfg { max_vertices: 4, max_depth: 3, recurse_depths: vec![1, 2, 3], wide_filters: false, naming_devs: true, allow: None, e_names: None, e_contents: vec![0, 1], tag_menu_cap: 0 }
     }
 }
 
@@ -233,8 +246,13 @@ pub fn deviations(schema: &SchemaModel, q: &Query, cfg: &GenCfg) -> Vec<Query> {
         let node = node_at(q, &ni.path);
 
         // E: add an edge (name x parameters x modifier x content)
-        if nv < cfg.max_vertices && ni.depth < cfg.max_depth {
+        if cfg.allows("E") && nv < cfg.max_vertices && ni.depth < cfg.max_depth {
             for (ename, params) in edge_variants(schema, &ni.ty) {
+                if let Some(names) = &cfg.e_names {
+                    if !names.iter().any(|n| *n == ename) || !params.is_empty() {
+                        continue;
+                    }
+                }
                 let f = schema.field(&ni.ty, &ename).unwrap();
                 let to_ty = f.ty.base().to_string();
                 let child_index = node.items.iter().filter(|it| matches!(it, Item::Edge(_))).count();
@@ -250,7 +268,7 @@ pub fn deviations(schema: &SchemaModel, q: &Query, cfg: &GenCfg) -> Vec<Query> {
                 for (optional, recurse, fold) in modifiers {
                     let out_prop = if schema.field(&to_ty, "n").is_some() { "n" } else { "s" };
                     let bare_prop = if schema.field(&to_ty, "id").is_some() { "id" } else { "s" };
-                    for content in [0, 1] {
+                    for content in cfg.e_contents.iter().copied() {
                         let mut e = EdgeUse::new(&ename);
                         e.params = params.clone();
                         e.optional = optional;
@@ -270,7 +288,7 @@ pub fn deviations(schema: &SchemaModel, q: &Query, cfg: &GenCfg) -> Vec<Query> {
         }
 
         // C: coercion on this node
-        if node.coerce.is_none() {
+        if cfg.allows("C") && node.coerce.is_none() {
             for t in schema.concrete_types() {
                 if t.name != ni.ty && schema.instance_of(&t.name, &ni.ty) {
                     let mut q2 = q.clone();
@@ -282,6 +300,9 @@ pub fn deviations(schema: &SchemaModel, q: &Query, cfg: &GenCfg) -> Vec<Query> {
 
         // Po: explicit-name output of a property (non-root nodes and other properties)
         for prop in ["n", "s", "l", "__typename"] {
+            if !cfg.allows("Po") {
+                break;
+            }
             if prop_type(schema, &ni.ty, prop).is_some() && !has_dir(node, prop, |d| matches!(d, Dir::Output(_))) {
                 let mut q2 = q.clone();
                 add_prop_dir(node_at_mut(&mut q2, &ni.path), prop, Dir::Output(Some(format!("o{pn}{}", prop.trim_start_matches('_')))));
@@ -289,7 +310,7 @@ pub fn deviations(schema: &SchemaModel, q: &Query, cfg: &GenCfg) -> Vec<Query> {
             }
         }
         // Poi: implicit-name output (prefix naming rule)
-        if cfg.naming_devs && prop_type(schema, &ni.ty, "f").is_some() && !has_dir(node, "f", |d| matches!(d, Dir::Output(_))) {
+        if cfg.allows("Poi") && cfg.naming_devs && prop_type(schema, &ni.ty, "f").is_some() && !has_dir(node, "f", |d| matches!(d, Dir::Output(_))) {
             let mut q2 = q.clone();
             add_prop_dir(node_at_mut(&mut q2, &ni.path), "f", Dir::Output(None));
             out.push(q2);
@@ -297,6 +318,9 @@ pub fn deviations(schema: &SchemaModel, q: &Query, cfg: &GenCfg) -> Vec<Query> {
 
         // Pf: variable filter
         for (k, (prop, op)) in filter_menu(cfg).iter().enumerate() {
+            if !cfg.allows("Pf") {
+                break;
+            }
             let pt = match prop_type(schema, &ni.ty, prop) {
                 Some(t) => t,
                 None => continue,
@@ -313,14 +337,17 @@ pub fn deviations(schema: &SchemaModel, q: &Query, cfg: &GenCfg) -> Vec<Query> {
             out.push(q2);
         }
         // Px: __typename filter
-        if !has_dir(node, "__typename", |d| matches!(d, Dir::Filter { .. })) {
+        if cfg.allows("Px") && !has_dir(node, "__typename", |d| matches!(d, Dir::Filter { .. })) {
             let mut q2 = q.clone();
             add_prop_dir(node_at_mut(&mut q2, &ni.path), "__typename", Dir::Filter { op: "=".into(), arg: Some(ArgRef::Var(format!("v{pn}_ty"))) });
             out.push(q2);
         }
 
         // Pt: tag here + filter at this or a later node (engine order)
-        for (tprop, fprop, op) in tag_menu(cfg) {
+        for (tk, (tprop, fprop, op)) in tag_menu(cfg).into_iter().enumerate() {
+            if !cfg.allows("Pt") || (cfg.tag_menu_cap > 0 && tk >= cfg.tag_menu_cap) {
+                break;
+            }
             if prop_type(schema, &ni.ty, tprop).is_none() {
                 continue;
             }
@@ -355,7 +382,7 @@ pub fn deviations(schema: &SchemaModel, q: &Query, cfg: &GenCfg) -> Vec<Query> {
         let e = edge_at(q, &ni.path);
         let pn = path_name(&ni.path);
         // Ae: alias an edge (prefix naming)
-        if cfg.naming_devs && e.alias.is_none() {
+        if cfg.allows("Ae") && cfg.naming_devs && e.alias.is_none() {
             let mut q2 = q.clone();
             edge_at_mut(&mut q2, &ni.path).alias = Some(format!("a{pn}_"));
             out.push(q2);
@@ -365,13 +392,16 @@ pub fn deviations(schema: &SchemaModel, q: &Query, cfg: &GenCfg) -> Vec<Query> {
         }
         let has_count = |pred: &dyn Fn(&Dir) -> bool| e.count.as_ref().map(|c| c.iter().any(pred)).unwrap_or(false);
         // Fco: count output
-        if !has_count(&|d| matches!(d, Dir::Output(_))) {
+        if cfg.allows("Fco") && !has_count(&|d| matches!(d, Dir::Output(_))) {
             let mut q2 = q.clone();
             edge_at_mut(&mut q2, &ni.path).count.get_or_insert_with(Vec::new).push(Dir::Output(Some(format!("c{pn}"))));
             out.push(q2);
         }
         // Fcf: count filter with a variable
         for (k, op) in ["=", "<", "<=", ">", ">=", "one_of"].iter().enumerate() {
+            if !cfg.allows("Fcf") {
+                break;
+            }
             if has_count(&|d| matches!(d, Dir::Filter { op: o, .. } if o == op)) {
                 continue;
             }
@@ -380,6 +410,9 @@ pub fn deviations(schema: &SchemaModel, q: &Query, cfg: &GenCfg) -> Vec<Query> {
             out.push(q2);
         }
         // Fct: count tag + a use at a later node's property or a later fold's count
+        if !cfg.allows("Fct") {
+            continue;
+        }
         let tname = format!("ct{pn}");
         let my_pos = infos.iter().position(|x| x.path == ni.path).unwrap();
         for uj in infos.iter() {
@@ -512,4 +545,24 @@ pub fn argument_maps(vars: &BTreeMap<String, TyRef>, wide: bool, cap_per_var: us
         maps = next;
     }
     maps
+}
+
+/// Queries with one or two added edges (next/one; plain, @optional, @fold, @recurse(2); bare
+/// contents) plus exactly one tag-related deviation (property tag + use, or count tag + use).
+/// These are 2- and 3-deviation members of the same space, selected because tag bookkeeping
+/// across optional / fold / recurse scopes needs at least two edges to exist first.
+pub fn tag_shapes(schema: &SchemaModel) -> Vec<Query> {
+    let cfg_e = GenCfg { allow: Some(vec!["E"]), e_names: Some(vec!["next", "one"]), e_contents: vec![0], recurse_depths: vec![2], naming_devs: false, ..Default::default() };
+    let layers = enumerate(schema, &[skeleton()], 2, &cfg_e);
+    let cfg_t = GenCfg { allow: Some(vec!["Pt", "Fct"]), tag_menu_cap: 3, naming_devs: false, ..Default::default() };
+    let mut seen = HashSet::new();
+    let mut out = vec![];
+    for s in layers.iter().skip(1).flatten() {
+        for q in deviations(schema, s, &cfg_t) {
+            if seen.insert(fingerprint(&q)) {
+                out.push(q);
+            }
+        }
+    }
+    out
 }
